@@ -50,9 +50,10 @@ def run(ctx):
     th = theorems()
     if th:
         ctx.proof_stage('Props.C01', th)
-    pl = os.path.join(COQ, 'Props', 'C01loops.v')
-    if os.path.exists(pl):
-        ctx.proof_stage('Props.C01loops', re.findall(r'^Theorem (\w+)', open(pl).read(), re.M))
+    for extra in ('C01loops', 'C01ctl'):
+        pl = os.path.join(COQ, 'Props', extra + '.v')
+        if os.path.exists(pl):
+            ctx.proof_stage('Props.' + extra, re.findall(r'^Theorem (\w+)', open(pl).read(), re.M))
     findings = [f for f in ctx.findings if f.get('status') == 'open']
     # corr-M: the generator's comparison lowering vs Model/GenTables.v, every cell
     ncell, tab_mism, _ = run_gentab()
